@@ -134,6 +134,7 @@ class QSpec:
     len_vl: int = 2               # width of the long-header Length varint
     early_secret_line: bool = True
     nst: int = 0                  # NewSessionTicket messages in 1-RTT CRYPTO frames
+    sh_suite: int = -1            # >= 0: the ServerHello announces this suite id instead of the negotiated one (fault injection: unknown suite)
     grease: float = 0.0           # probability per packet of clearing the QUIC fixed bit (RFC 9287); such captures need the -g option
 
 
@@ -231,7 +232,7 @@ def build_qconn(spec: QSpec, rng) -> QConn:
     offered = b"".join(s.to_bytes(2, "big") for s in spec.offered)
     ch = hs(1, b"\x03\x03" + cr + b"\x00" + len(offered).to_bytes(2, "big") + offered + b"\x01\x00" + len(ce).to_bytes(2, "big") + ce)
     se = ext(43, b"\x03\x04") + ext(51, b"\x00\x1d\x00\x20" + rb(32))
-    sh = hs(2, b"\x03\x03" + rb(32) + b"\x00" + spec.suite.to_bytes(2, "big") + b"\x00" + len(se).to_bytes(2, "big") + se)
+    sh = hs(2, b"\x03\x03" + rb(32) + b"\x00" + (spec.suite if spec.sh_suite < 0 else spec.sh_suite).to_bytes(2, "big") + b"\x00" + len(se).to_bytes(2, "big") + se)
     ee_ext = ext(16, b"\x00\x03\x02h3") + ext(57, varint(0) + varint(len(odcid)) + odcid)
     s_hs = hs(8, len(ee_ext).to_bytes(2, "big") + ee_ext) + hs(11, b"\x00" + rb(rng.choice([100, 700, 2000]))) + hs(15, b"\x08\x04\x00\x40" + rb(64)) + hs(20, rb(hl))
     c_fin = hs(20, rb(hl))
@@ -386,7 +387,18 @@ def build_qconn(spec: QSpec, rng) -> QConn:
             updates_done.append((idx, d))
         assert len(packets) == 1, "one short-header packet per datagram"
         dcid = c_dcid_used_by_server if d == "s" else s_dcid_used_by_client
-        emit(d, [mk_short(cur[d], d, dcid, packets[0], phase[d])])
+        frames = []
+        for fr in packets[0]:
+            if fr[0] == "nst":          # post-handshake NewSessionTicket in a 1-RTT CRYPTO frame (server only), at the running CRYPTO offset
+                if d == "s":
+                    t = hs(4, rb(fr[1]))
+                    frames.append(("crypto", coff, t))
+                    coff += len(t)
+            else:
+                frames.append(fr)
+        if not frames:
+            frames = [("raw",) + qf.ping()]
+        emit(d, [mk_short(cur[d], d, dcid, frames, phase[d])])
         sent_in_phase[d] = True
     info["key_updates_done"] = updates_done
     expect = [(g.dir, g.stream) for g in dg if g.stream]
@@ -432,10 +444,12 @@ def random_app(rng, n, w=None, stream_heavy=True):
         if k and frames[-1][0] == "stream" and frames[-1][3]["explicit_len"] and rng.random() < 0.5:
             b, t = qf.random_frame(rng, w, allow=["PADDING", "PING", "ACK"])
             frames.append(("raw", b, t))
+        if d == "s" and rng.random() < 0.12:
+            frames.insert(rng.randrange(0, len(frames) + 1) if not (frames and frames[-1][0] == "stream" and not frames[-1][3]["explicit_len"]) else 0, ("nst", rng.randrange(20, 120)))
         if not frames:
             frames.append(("raw",) + qf.ping())
         # keep the packet inside one 1350-byte datagram
-        while sum(len(f[1]) if f[0] == "raw" else len(f[2]) + 12 for f in frames) > 1300 and len(frames) > 1:
+        while sum(len(f[1]) if f[0] == "raw" else (f[1] + 12 if f[0] == "nst" else len(f[2]) + 12) for f in frames) > 1300 and len(frames) > 1:
             f = frames.pop(rng.randrange(len(frames)))
         if frames[-1][0] != "stream":
             for f in frames:
@@ -485,8 +499,8 @@ def random_qspec(rng, napp=None, avoid=()):
     w = qf.W(rng, s.varint_policy)
     n = napp if napp is not None else rng.choice([0, 1, 2, 5, 12, 30])
     s.app = random_app(rng, n, w)
-    if rng.random() < 0.35 and n:
-        s.key_updates = tuple(sorted(rng.sample(range(n), min(n, rng.choice([1, 1, 2, 3])))))
+    if rng.random() < 0.4 and n:
+        s.key_updates = tuple(sorted(rng.sample(range(n), min(n, rng.choice([1, 1, 2, 3, 4, 6])))))
     if rng.random() < 0.3 and n and s.s_scid_len:
         s.new_cid_at = rng.randrange(n)
     if rng.random() < 0.15 and n and s.c_scid_len:
@@ -525,5 +539,6 @@ def describe(spec: QSpec):
     d["offered"] = [f"{x:04X}" for x in spec.offered]
     d["pn_start"] = {f"{k[0]}/{k[1]}": v for k, v in spec.pn_start.items()}
     d["app"] = [(dd, [[f[0] if f[0] != "raw" else f[2]["kind"] for f in p] for p in pk]) for dd, pk in spec.app][:12]
+    d["sh_suite"] = None if spec.sh_suite < 0 else f"{spec.sh_suite:04X}"
     d["zero_rtt_packets"] = len(spec.zero_rtt)
     return d
